@@ -216,9 +216,7 @@ def run_real(exe, case, timeout=20, keep_dir=False):
         elif b"terminate called" in err:
             res.crash = res.crash or "terminate"
         if case.mode == "repl":
-            # the banner is whatever precedes the first prompt
-            k = out.find(b"> ")
-            out = out[k:] if k >= 0 else BANNER_RE.sub(b"", out, count=1)
+            out = normalise_repl(exe, out, case.stdin)
             chunks = err.split(MARK)
             for ch in chunks:
                 ds, other = parse_stderr(ch.decode("latin1"))
@@ -244,6 +242,51 @@ def run_real(exe, case, timeout=20, keep_dir=False):
     finally:
         if not keep_dir:
             shutil.rmtree(d, ignore_errors=True)
+
+_PROMPTS = {}
+_PROBE = b"zq1 <- 1\nzq2 <- 2\nIF TRUE THEN\nzq1 <- 3\nENDIF\n\nzq3 <- 1\n"
+
+def learn_prompts(exe):
+    """(banner, prompt, continuation prompt) of this binary's REPL, learned from a probe session; None when they cannot be
+    told apart (then the historical '> ' / '. ' are assumed). The properties do not fix these texts, so the harness must not."""
+    if exe in _PROMPTS: return _PROMPTS[exe]
+    res = None
+    d = tempfile.mkdtemp(prefix="probe-", dir=scratch_root())
+    try:
+        p = subprocess.run([exe], input=_PROBE, capture_output=True, cwd=d, timeout=20)
+        segs = p.stdout.split(MARK)
+        if len(segs) >= 5 and segs[1] and segs[3] == segs[1] and segs[0].endswith(segs[1]) and segs[2].startswith(segs[1]):
+            P = segs[1]; rest = segs[2][len(P):]
+            if rest and len(rest) % 3 == 0 and rest == rest[:len(rest) // 3] * 3:
+                res = (segs[0][:-len(P)], P, rest[:len(rest) // 3])
+    except Exception:
+        res = None
+    finally:
+        shutil.rmtree(d, ignore_errors=True)
+    _PROMPTS[exe] = res
+    return res
+
+def normalise_repl(exe, out, stdin):
+    """REPL stdout with the banner removed and this binary's prompts replaced by the standard '> ' / '. '"""
+    pr = learn_prompts(exe)
+    if pr is None or (pr[1], pr[2]) == (b"> ", b". "):
+        # the banner is whatever precedes the first prompt
+        if pr is not None and out.startswith(pr[0]): return out[len(pr[0]):]
+        k = out.find(b"> ")
+        return out[k:] if k >= 0 else BANNER_RE.sub(b"", out, count=1)
+    banner, P, C = pr
+    if out.startswith(banner): out = out[len(banner):]
+    from prof_expr import continuation_counts
+    ks = continuation_counts(stdin)
+    segs = out.split(MARK)
+    for j, sg in enumerate(segs):
+        head = b""
+        if sg.startswith(P):
+            head += b"> "; sg = sg[len(P):]
+            for _ in range(ks[j] if j < len(ks) else 0):
+                if sg.startswith(C): head += b". "; sg = sg[len(C):]
+        segs[j] = head + sg
+    return MARK.join(segs)
 
 def run_real_many(exe, cases, timeout=20):
     with ThreadPoolExecutor(max_workers=JOBS) as ex:
